@@ -54,13 +54,14 @@ def distributions(d, ctx):
     N = d.int(2 * D + 1, 2 * D + 12)
     rng = d.rng()
     complex_ = which in ('ccsg', 'watson', 'cacg', 'bingham')
-    y, _ = mm.cluster_data(rng, lead, 2, N, D, complex_, 0.5)
+    spread = d.choice([0.5, 0.5, 1e-2, 1e-5])
+    y, _ = mm.cluster_data(rng, lead, 2 if spread == 0.5 else 1, N, D, complex_, spread)
     if not complex_:
         y = y + rng.normal(size=(*lead, 1, D))
     sal = None
     if d.bool() and which != 'cacg':
         sal = rng.uniform(0.2, 2.0, size=(*lead, N))
-    ctx.describe(which=which, lead=lead, D=D, N=N, saliency=sal is not None)
+    ctx.describe(which=which, lead=lead, D=D, N=N, saliency=sal is not None, spread=spread)
     ctx.label(which, f'naxes={len(lead)}', f'slices={min(int(np.prod(lead)), 6)}')
 
     def fit(data, s):
